@@ -78,6 +78,7 @@ type ev =
   | Sub of dmsg
   | Crash of rxpacket * n list * n * int * int list   (* cut after k operations (k < 0: not cut), operations that fail *)
   | Upd of n * n * n list                             (* the operator gives the device a new address / a new AppKey (UpdateDevice) *)
+  | UpdFull of device * bool                          (* a whole row, read earlier, written back (UpdateDevice); key warning *)
 
 let parse_event s =
   match String.split_on_char ',' s with
@@ -95,6 +96,7 @@ let parse_event s =
     Crash (rx, (if appnonce = "" then [N0; N0; N0] else bytes_of_hex appnonce), hexn newaddr, int_of_string k,
            (if fails = "" then [] else List.map int_of_string (String.split_on_char '+' fails)))
   | ["U"; eui; addr; key] -> Upd (hexn eui, hexn addr, bytes_of_hex key)
+  | ["UF"; dev; kw] -> UpdFull (parse_dev dev, kw = "1")
   | ["S"; eui; created; port; ack; data] ->
     Sub { m_eui = hexn eui; m_data = bytes_of_hex data; m_port = n_of_int (int_of_string port); m_ack = (ack = "1");
           m_created = n_of_int (int_of_string created); m_sent = N0; m_acktime = N0; m_fcntup = N0 }
@@ -266,6 +268,13 @@ let run_history g obs (judge : n list -> step list -> string) =
         | Some r -> let (st', err) = l_update_device st { r with d_addr = addr; d_appkey = key } in (st', err = None)
         | None -> (st, false) in
       let s' = if ok then { s with s_tab = dt_put s.s_tab eui st' } else s in
+      (s', (Printf.sprintf "U%s %s" (if ok then "1" else "0") (dump_all s' euis)) :: lines, { ev; pre = s; post = s'; outs = []; impl_obs = io } :: steps, i + 1)
+    | UpdFull (dv, kw) ->
+      let st = dt_get s.s_tab dv.d_eui in
+      let (st', ok) = match st.ds_row with
+        | Some _ -> let (st', err) = l_update_device st { dv with d_keywarn = kw } in (st', err = None)
+        | None -> (st, false) in
+      let s' = if ok then { s with s_tab = dt_put s.s_tab dv.d_eui st' } else s in
       (s', (Printf.sprintf "U%s %s" (if ok then "1" else "0") (dump_all s' euis)) :: lines, { ev; pre = s; post = s'; outs = []; impl_obs = io } :: steps, i + 1)
     | Sub m ->
       let (s', ok) = submit s m in
